@@ -91,11 +91,11 @@ theorem transferCore_error_iff (a : Accts) (t : Transfer) :
 /-- one transfer as the engine performs it (`transferAmountWithAssert`): the exact failure conditions. -/
 theorem transfer_error_iff (a : Accts) (t : Transfer) :
     (∃ e, transfer a t = .error e) ↔
-      (get a t.src).balance + (if t.dstCanon then (get a t.dst).balance else 0) ≥ u64 ∨
+      (get a t.src).balance + (if t.dstReadable then (get a t.dst).balance else 0) ≥ u64 ∨
       (t.amount ≠ 0 ∧ (t.dstCanon = false ∨ t.src = t.dst ∨ (get a t.src).balance < t.amount ∨
         (get a t.dst).balance + t.amount ≥ u64)) := by
   unfold transfer
-  by_cases hs : (get a t.src).balance + (if t.dstCanon then (get a t.dst).balance else 0) ≥ u64
+  by_cases hs : (get a t.src).balance + (if t.dstReadable then (get a t.dst).balance else 0) ≥ u64
   · rw [if_pos hs]; exact ⟨fun _ => Or.inl hs, fun _ => ⟨_, rfl⟩⟩
   · rw [if_neg hs, transferCore_error_iff]
     exact ⟨fun h => Or.inr h, fun h => h.elim (fun h' => absurd h' hs) id⟩
@@ -119,8 +119,8 @@ theorem value_cap (feeOn : Bool) (s : St) (t : Txn) (r : CResult) (h : t.value >
 -- non-vacuity: a queue whose THIRD transfer overdraws is rejected although two succeeded
 def exS5 : St := { accts := [(3, ⟨1000, 4⟩), (7, ⟨50, 0⟩)], store := [(1, 1)] }
 def exT5 : Txn := { sender := 3, to := 7, toValid := true, value := 100, fee := 10, nonce := 5, typ := .sc }
-example : step true exS5 exT5 (.ok [.put 1 2] [⟨3, 7, 100, true⟩, ⟨7, 9, 40, true⟩, ⟨9, 3, 41, true⟩] []) = (exS5, .rejected) := by decide
-example : (step true exS5 exT5 (.ok [.put 1 2] [⟨3, 7, 100, true⟩, ⟨7, 9, 40, true⟩, ⟨9, 3, 40, true⟩] [])).2 = .success := by decide
+example : step true exS5 exT5 (.ok [.put 1 2] [⟨3, 7, 100, true, false⟩, ⟨7, 9, 40, true, false⟩, ⟨9, 3, 41, true, false⟩] []) = (exS5, .rejected) := by decide
+example : (step true exS5 exT5 (.ok [.put 1 2] [⟨3, 7, 100, true, false⟩, ⟨7, 9, 40, true, false⟩, ⟨9, 3, 40, true, false⟩] [])).2 = .success := by decide
 example : InRange exS5.accts := by intro p hp; simp [exS5] at hp; rcases hp with rfl | rfl <;> simp [u64]
 
 end ZChain.Ledger
